@@ -1090,6 +1090,11 @@ class Evaluator:
                     not (is_scalar(b) or b is None or isinstance(b, str)):
                 raise Unsupported("operands %r, %r (line %d)" % (a, b, lineno))
             return f(a, b)
+        # a string literal compared with / combined with a column of string cells: cells are integer codes (val.str_code)
+        if aa and isinstance(b, str) and getattr(a, "kind", "") == "i":
+            b = V.str_code(b)
+        if ab and isinstance(a, str) and getattr(b, "kind", "") == "i":
+            a = V.str_code(a)
         if aa and not ab:
             if not is_scalar(b):
                 raise Unsupported("array op %r (line %d)" % (b, lineno))
